@@ -24,7 +24,8 @@ extern size_t G_conns_after_push; extern struct channel *G_pushed;
 static inline struct channel *cv_back_or_null(struct chanvec *q) { return q->len > 0 ? q->a[q->head + q->len - 1] : (struct channel *)0; }
 #define ACC_GHOST g_rawself_posts, g_ic_calls, g_ic_sock, g_ic_bind, g_ic_chan, g_ic_ec, g_afwd_count, g_afwd_last, g_afwd_at_Gj
 /* what every acceptor entry point needs beyond the representation invariant (established by the harness) */
-#define ACC_PRE(self) (GHOST_BOUNDS && EVENT_SMALL && g_posted_count < ((size_t)1 << 37) && G_j < CV_CAP_MAX && __CPROVER_r_ok((self)->m_incoming_conns.a, (self)->m_incoming_conns.cap * sizeof(struct channel *)) && \
+#define ACC_PRE(self) (g_posted_count < ((size_t)1 << 37) && ACC_PRE_IN(self))
+#define ACC_PRE_IN(self) (GHOST_BOUNDS && EVENT_SMALL && g_posted_count < ((size_t)1 << 38) && G_j < CV_CAP_MAX && __CPROVER_r_ok((self)->m_incoming_conns.a, (self)->m_incoming_conns.cap * sizeof(struct channel *)) && \
    ((self)->m_incoming_conns.len > 0 ? (__CPROVER_rw_ok(CV_AT((self)->m_incoming_conns, 0), sizeof(struct channel)) && ROUTE_OK(CV_AT((self)->m_incoming_conns, 0)->hops[0])) : 1) && \
    ((self)->m_remote_endpoint == (ep_t *)0 ? 1 : __CPROVER_w_ok((self)->m_remote_endpoint, sizeof(ep_t))))
 #define ACC_CQ_FRAME(self) (self)->m_incoming_conns.head, (self)->m_incoming_conns.len, (self)->m_accept_handler, (self)->m_accept_handler2, (self)->m_accept_into, (self)->m_remote_endpoint, (self)->m_new_socket, EVENT_FRAME, g_destroyed, ACC_GHOST
